@@ -14,6 +14,7 @@ func init() {
 			"T2 every Types entry K is TypeOf((*P.K)(nil)).Elem() of the named type K; T3 every Untypeds string decodes (checker's own reader) to exactly types.Const.Val() of P.K with the same untyped kind, and every bound untyped constant has such an entry; " +
 			"T4 every Proxies entry is a struct {Object interface{}; M_ func(interface{}, params...) results} that implements the interface and whose methods forward receiver.Object then every parameter in order; " +
 			"T5 every Wrappers name is a promoted method (selection path > 1) of the named type in Go's method set; T6 Name equals the package name; U/A2 the per-kind readers and places of imported variables in fast/import.go are uniform across kinds (each reads the live variable with the accessor of its kind). " +
+			"T6o loadBinds classifies a table entry as a variable (addressable and settable) before it considers it a constant. " +
 			"Not decided: behaviour of the bound functions, completeness of a table with respect to newer toolchains, generated-file freshness.",
 		Assumptions: []string{"go/types view of the installed standard library (export data) is the oracle", "go/constant arithmetic", "reflect.ValueOf / TypeOf / Elem behave as documented"},
 		Rules: []func(*Ctx){ruleImportTables, ruleImportTablesFloors, func(c *Ctx) {
@@ -50,10 +51,12 @@ func init() {
 		Explanation: "Decided: M2 the tags written by Marshal (one per Kind arm) and the tags read by Unmarshal are in bijection and map back to the same Kind; M3 the number of payload fields written per tag equals the number the reader splits; " +
 			"M4 the tag is cut at the FIRST ':' and the payload is everything after it; M5 every numeric field is produced by constant.Value.ExactString (never the lossy String) and consumed by MakeFromLiteral(token.INT) for int/rune or by unmarshalFloat for float/complex; " +
 			"M6 unmarshalFloat splits on '/' and divides numerator by denominator; T3 (shared with C31) every one of the marshalled literals present in the import tables decodes, with the checker's own reader, to exactly the constant it names. " +
+			"M7u the marshalled text of the table reaches untyped.Unmarshal unmodified. " +
 			"Not decided: that go/constant's ExactString and MakeFromLiteral are mutually inverse (trusted).",
 		Assumptions: []string{"go/constant ExactString/MakeFromLiteral are inverse on exact values", "fmt.Sprintf %s is verbatim"},
 		Rules:       []func(*Ctx){ruleMarshalTables, ruleUntypedLiteralsOnly, func(c *Ctx) { ruleUnmarshalArgUnmodified(c, "M7u-unmarshal-arg-unmodified") }},
 		Mutants: []Mutant{
+			{Name: "table-text-trimmed-before-decoding", File: "fast/import.go", Old: "kind, value := untyped.Unmarshal(untypedstr)", New: "kind, value := untyped.Unmarshal(strings.TrimSpace(untypedstr))"},
 			{Name: "lossy-string", File: "base/untyped/val.go", Old: `s = fmt.Sprintf("float:%s", val.ExactString())`, New: `s = fmt.Sprintf("float:%s", val.String())`, Canary: true},
 			{Name: "tag-kind-swapped", File: "base/untyped/val.go", Old: "case \"rune\":\n\t\tkind = Rune", New: "case \"rune\":\n\t\tkind = Int"},
 			{Name: "last-colon", File: "base/untyped/val.go", Old: `strings.IndexByte(marshalled, ':')`, New: `strings.LastIndexByte(marshalled, ':')`, Canary: true},
